@@ -230,3 +230,39 @@ def judge(setup, obs, with_reaper, expect_reaper_done=True):
 
 def compact(log):
     return " ".join("%s:%s" % (a[:1] + a[-1:], l[0][:2]) for a, l in log[:60])
+
+
+def progress_during_growth(rep, nsim=80):
+    """C08 'at every moment': a progress poller interleaved with two growers (no reaper).  TLC checks
+    PollerNeverCountsPartial over all interleavings of the recorded grower programs; counterexamples and simulated
+    schedules are replayed on the real code."""
+    setup = Setup(4, 2)
+    try:
+        writers = [("g1", 1, 9101), ("g2", 2, 9102)]
+        progs, names = record_programs(setup, writers)
+        consts = model_constants(progs, writers, setup.nb, npolls=2, with_reaper=False, max_sleeps=0)
+        r = run_model("MC_C08_poll", consts, invariants=["TypeOK", "PollerNeverCountsPartial"], workers=max(2, common.NCPU // 4))
+        rep.add_tlc("CropFS poller vs two growers (PollerNeverCountsPartial)", r)
+        todo = []
+        if r.violated == "PollerNeverCountsPartial":
+            todo.append(("counterexample", schedule_from_trace(r.trace)))
+        else:
+            econsts = dict(consts)
+            econsts["Record"] = True
+            e = run_model("MC_C08_poll_sim", econsts, emit=True, simulate=dict(num=nsim), depth=80, seed=rep.seed, workers=1, invariants=[])
+            rep.add_tlc("CropFS poller simulate", e)
+            seen = {}
+            for c in e.cases:
+                seen.setdefault(common.stable_hash(c["hist"]), c)
+            todo = [("schedule", [(a, k) for a, k in c["hist"]]) for c in seen.values()]
+        for kind, steps in todo:
+            obs = execute(setup, writers, steps, npolls=2, with_reaper=False)
+            prob, tag = judge(setup, obs, False)
+            case = dict(kind="poll_" + kind, steps=[list(s) for s in steps])
+            rep.add_case(["poll", steps], sample=None)
+            if prob:
+                rep.add_violation(case, prob, key=dict(tag=tag, kind="poll"))
+            elif kind == "counterexample":
+                rep.note("model_imprecision: poller counterexample did not reproduce on the real code")
+    finally:
+        setup.close()
